@@ -19,11 +19,33 @@ CLASS = {" ": "space", ".": "dot", '"': "dquote", "`": "backtick", "'": "squote"
 KEYWORDS = ["select", "order", "Group", "table", "from", "null"]
 
 
-def sites():
-    from pypika_tortoise import AliasedQuery, Column, Field, Table
-    from pypika_tortoise import functions as fn
+SHARE: dict = {}      # name-bearing objects of the current statement family (cross-dialect pass: kept between two renderings)
+SHARING = [False]
 
-    t, u = Table("t"), Table("u")
+
+def sites():
+    from pypika_tortoise import AliasedQuery, Column, Database, Field, Schema
+    from pypika_tortoise import Table as _Table
+    from pypika_tortoise import functions as fn
+    from pypika_tortoise.terms import Index
+
+    def Table(name, **kw):
+        """a table object; in the cross-dialect pass the SAME object (and so the same Schema / alias state) serves both renderings"""
+        if not SHARING[0]:
+            return _Table(name, **kw)
+        key = ("T", name, repr(sorted(kw.items())))
+        if key not in SHARE:
+            SHARE[key] = _Table(name, **kw)
+        return SHARE[key]
+
+    def shared(key, mk):
+        if not SHARING[0]:
+            return mk()
+        if key not in SHARE:
+            SHARE[key] = mk()
+        return SHARE[key]
+
+    t, u = _Table("t"), _Table("u")
 
     def render(Q, q):
         return q.get_sql(Q.SQL_CONTEXT)
@@ -33,8 +55,32 @@ def sites():
     def join_table(Q, n): return str(Q.from_(t).join(Table(n)).on(t.x == Table(n).x).select(t.x))
     def schema(Q, n): return str(Q.from_(Table("t", schema=n)).select("x"))
     def schema_nested(Q, n): return str(Q.from_(Table("t", schema=("s", n))).select("x"))
-    def column_select(Q, n): return str(Q.from_(t).select(t.field(n)))
-    def column_where(Q, n): return str(Q.from_(t).select(t.x).where(t.field(n) == 1))
+    def schema_object(Q, n):
+        sc = shared(("S", n), lambda: Schema(n))
+        return str(Q.from_(sc.t).select("x"))
+    def database(Q, n):
+        db = shared(("D", n), lambda: Database(n))
+        return str(Q.from_(db.sch.t).select("x"))
+    def database_schema(Q, n):
+        db = shared(("Ds", n), lambda: Database("db"))
+        return str(Q.from_(getattr(db, "sch").__getattr__("t") if False else Schema(n, parent=db).t).select("x"))
+    def column_select(Q, n): return str(Q.from_(t).select(shared(("F", n), lambda: t.field(n))))
+    def column_where(Q, n): return str(Q.from_(t).select(t.x).where(shared(("Fw", n), lambda: t.field(n) == 1)))
+    def field_of_aliased_table(Q, n):
+        ta = Table("t").as_("ta")
+        return str(Q.from_(ta).join(u).on(ta.x == u.x).select(shared(("Fa", n), lambda: Field(n, table=ta))))
+    def index_term(Q, n): return str(Q.from_(t).select(t.x).where(shared(("I", n), lambda: Index(n)) == 1))
+    def select_into_table(Q, n): return str(Q.from_(t).select(t.x).into(Table(n)))
+    def insert_select_table(Q, n): return str(Q.into(Table(n)).from_(t).select(t.x))
+    def replaced_table(Q, n): return str(Q.from_(t).select(t.x).where(t.y == 1).join(u).on(t.x == u.x).replace_table(t, Table(n)))
+    def mysql_row_alias(Q, n):
+        from pypika_tortoise import MySQLQuery
+        if Q is not MySQLQuery:
+            return None
+        return str(Q.into(t).insert(1).as_(n).on_conflict().do_update("x"))
+    def join_subquery_alias(Q, n):
+        sq = Q.from_(t).select(t.x).as_(n)
+        return str(Q.from_(u).join(sq).on(u.x == sq.x).select(u.x, sq.x))
     def column_qualified(Q, n): return str(Q.from_(t).join(u).on(t.x == u.x).select(u.field(n)))
     def qualifier(Q, n):
         tn = Table(n)
@@ -91,7 +137,7 @@ def sites():
 
     import types
 
-    return {k: v for k, v in locals().items() if isinstance(v, types.FunctionType) and k != "render"}
+    return {k: v for k, v in locals().items() if isinstance(v, types.FunctionType) and k not in ("render", "Table", "shared")}
 
 
 # MySQL has no conflict target: on_conflict() fields are legitimately not part of INSERT IGNORE / ON DUPLICATE KEY UPDATE
@@ -157,20 +203,55 @@ def run(tier: str) -> int:
                 ev = lit.make_event(len(events), d, text, btext, "id", MARK, [lit.id_alt(n, [q])], sample_lex=(len(events) % 101 == 0))
                 events.append(ev)
                 meta.append((d, sname, n, text))
+    # second pass: the name-bearing objects (tables with their schemas, fields, index terms) are built ONCE and rendered under
+    # two dialects with different identifier quotes in a row; the second text is judged like any other
+    special = ["My Col", 'a"b', "x`y", "a.b", "select", "é x"] + (nm[::37] if tier != "quick" else [])
+    SHARING[0] = True
+    try:
+        for d1, d2 in (("generic", "mysql"), ("mysql", "postgresql"), ("postgresql", "mysql"), ("mysql", "oracle")):
+            Q1, Q2 = qcls[d1], qcls[d2]
+            q2 = ord("`") if d2 == "mysql" else ord('"')
+            for sname, f in st.items():
+                if (d2, sname) in NO_EMISSION:
+                    continue
+                SHARING[0] = False
+                try:
+                    btext = f(Q2, MARK)
+                finally:
+                    SHARING[0] = True
+                b2 = lexer.lex(btext, core.lex_dialect(d2)) if btext is not None else []
+                if btext is None or not any(t["t"] == "id" and t["v"] == MARK for t in b2) or any(t["t"] == "word" and t["v"] == MARK.upper() for t in b2):
+                    continue  # (a site that writes the name bare is one finding of the first pass)
+                for n in special:
+                    SHARE.clear()
+                    try:
+                        if f(Q1, n) is None:
+                            continue
+                        text = f(Q2, n)
+                    except Exception:  # noqa  (raising names are reported by the first pass)
+                        continue
+                    ev = lit.make_event(len(events), d2, text, btext, "id", MARK, [lit.id_alt(n, [q2])])
+                    events.append(ev)
+                    meta.append((d2, sname, n, text, "after-" + d1))
+    finally:
+        SHARING[0] = False
+        SHARE.clear()
     bad = lit.judge(events, rep)
     rep.traces = len(events)
     rep.evaluations = len(events)
     rep.distinct = {(m[1], m[2]) for m in meta}
     for tid in sorted(bad, key=lambda t: (len(char_classes(meta[t][2])), len(meta[t][2]))):
-        d, sname, n, text = meta[tid]
-        rep.discrepancy([[d, sname, c] for c in char_classes(n)],
-                        {"dialect": d, "site": sname, "name": n, "text": text, "fault": bad[tid]["fault"]},
+        d, sname, n, text = meta[tid][:4]
+        after = meta[tid][4] if len(meta[tid]) > 4 else ""
+        rep.discrepancy([[d, sname, c] for c in char_classes(n)] + ([[d, sname, c, after] for c in char_classes(n)] if after else []),
+                        {"dialect": d, "site": sname, "name": n, "text": text, "fault": bad[tid]["fault"], "same_objects_rendered_before_under": after[6:]},
                         what="name is not one correctly quoted identifier token denoting the supplied name")
     for k in (0, len(meta) // 2, len(meta) - 1):
-        d, sname, n, text = meta[k]
+        d, sname, n, text = meta[k][:4]
         rep.sample({"dialect": d, "site": sname, "name": n, "text": text, "verdict": "ok" if k not in bad else bad[k]["fault"]})
     rep.rule = (f"{len(nm)} names (all strings of length <=2 over a {len(ALPHABET)}-class alphabet, keywords, mixed case, seeded Unicode) at "
-                f"{len(st)} emission sites x 6 dialects; TLC lexes the real text; distinct = (site, name)")
+                f"{len(st)} emission sites x 6 dialects; TLC lexes the real text; distinct = (site, name); second pass: the same name-bearing objects rendered under "
+                "two dialects with different quote characters in a row (4 ordered dialect pairs x sites x special names)")
     rep.exhaustive = True
     rep.extra["sites"] = sorted(st)
     rep.assumptions = ["identifier grammar per dialect as written in PT_Lex (double quote, backtick for MySQL, doubling as escape)"]
